@@ -1,5 +1,6 @@
 import Driver.Common
 import SH.Model.Wire
+import SH.Gen.C13
 
 open SH SH.Wire
 
@@ -60,12 +61,57 @@ def decObs (p : Parsed) : String :=
     let cls := match p.err with | none => "ok" | some e => e.name
     s!"{f.name} ret={cls} perr={if p.perr then 1 else 0} n={p.delivered.length} {batchText p.delivered}"
 
+/-- long strings are abbreviated to `#<length>` in the tcp observation (frames are padded with 64 KiB tag values) -/
+def shortHex (b : Bytes) : String := if b.length > 20 then s!"#{b.length}" else hexOf b
+
+def metricTextShort (m : Metric) : String :=
+  let tags := if m.tags.isEmpty then "-" else ",".intercalate (m.tags.map (fun t => shortHex t.1 ++ ":" ++ shortHex t.2))
+  let hist := if m.hist.isEmpty then "-" else ",".intercalate (m.hist.map (fun h => s!"{h.1}/{h.2}"))
+  s!"{m.mask}|{shortHex m.name}|{tags}|{m.counter}|{m.ts}|{natList m.value}|{natList m.unique}|{hist}"
+
+def batchTextShort (ms : List Metric) : String :=
+  if ms.isEmpty then "-" else ";".intercalate (ms.map metricTextShort)
+
+/-- stream segments: hex, or `*HHxN` = N copies of byte HH -/
+def parseSegment? (s : String) : Option Bytes :=
+  if s.startsWith "*" then
+    match ((s.drop 1).toString).splitOn "x" with
+    | [h, n] => do
+      let b ← parseHexN? h
+      let n ← n.toNat?
+      match b with
+      | [x] => pure (List.replicate n x)
+      | _ => none
+    | _ => none
+  else parseHexN? s
+
+def parseStream? (s : String) : Option Bytes := do
+  let segs ← (parseList s).mapM parseSegment?
+  pure segs.flatten
+
+def cutChunks : List Nat → Bytes → List Bytes
+  | [], _ => []
+  | n :: ns, b => b.take n :: cutChunks ns (b.drop n)
+
+def tcpObs (chunks : List Bytes) : String :=
+  let c := runConn SH.Gen.C13.maxTCPFrameBody (4 + SH.Gen.C13.maxTCPFrameBody) chunks
+  let ps := c.frames.map (parse .fixed)
+  let delivered := (ps.map (·.delivered)).flatten
+  let perr := (ps.filter (·.perr)).length
+  let ending := match c.ending with | some .stall => "hang" | _ => "closed"
+  s!"tcp end={ending} perr={perr} n={delivered.length} {batchTextShort delivered}"
+
 def step (_ : Unit) (toks : List String) : Unit × List String :=
   match toks with
   | ["dec", h] =>
     match parseHexN? h with
     | some b => ((), [decObs (parse .fixed b)])
     | none => ((), ["bad-op"])
+  | ["tcp", sizes, segs] =>
+    match parseNatList? sizes, parseStream? segs with
+    | some ns, some stream =>
+      if ns.foldl (· + ·) 0 = stream.length then ((), [tcpObs (cutChunks ns stream)]) else ((), ["bad-op"])
+    | _, _ => ((), ["bad-op"])
   | ["enc", t] =>
     match parseBatch? t with
     | some ms => ((), [s!"tl={hexOf (tlEncBatch ms)} mp={hexOf (mpEncBatch ms)} pb={hexOf (pbEncBatch ms)}"])
